@@ -37,6 +37,8 @@ type ReqRec struct {
 	Ups       []int // indices into History.Ups
 	Res       *ClientResult
 	Dead      bool // abandoned by a crash
+	DeadT     int64
+	DeadSeq   int
 	// ReleasedBy: this request was seen natively blocked inside pike (coalesced behind a
 	// fetch) and left that state in a step in which only task ReleasedBy ran (-1: never
 	// blocked, -2: released by something else, e.g. a timer)
@@ -84,6 +86,8 @@ type StoreRec struct {
 	T       int64
 	Len     int
 	OutLen  int
+	CutAt   int
+	FullLen int
 	TTLms   int64
 	Err     string
 }
